@@ -130,8 +130,10 @@ func Plan(out string, seed uint64, tier string, scenario string, count int, epoc
 			switch i {
 			case 0:
 				pr.ForkBias = "late"
+				pr.ZeroHashMerge = 1
 			case 1:
 				pr.ForkBias = "early"
+				pr.ZeroHashMerge = 1
 			case 2:
 				pr.ForkBias = "pair"
 			case 3:
